@@ -106,3 +106,19 @@ def actor_attr(lib, channel, debut=False, interact=False, extra=()):
 
 
 LIBS = ["std", "tokio", "async_std", "smol"]
+
+
+def generic_impl(lib, slf=False):
+    """generic actor: a type parameter used in method signatures, a private one (PhantomData field in the handle), a const parameter"""
+    asy = "" if lib == "std" else "pub async fn asy(&mut self, t: T) -> T { t }"
+    fin = "pub fn fin(self) -> Option<T> { None }" if slf else ""
+    item = """impl<T: Clone + Send + 'static, P: Send + 'static, const N: usize> A<T, P, N> where P: Default {
+    pub fn new(t: T) -> Self { todo!() }
+    pub fn put(&mut self, t: T, n: [u8; N]) {}
+    pub fn get(&self) -> Option<T> { None }
+    pub fn me(&self, other: Self) -> Self { todo!() }
+    pub fn gen<X: Into<T> + Send + 'static>(&mut self, x: X) -> T { todo!() }
+    %s
+    %s
+}""" % (asy, fin)
+    return {"item": item, "actor_ty": "A", "slf": slf}
